@@ -11,6 +11,12 @@ package metadata
 //@ define firstScheduledAt(pod *v1.Pod, i int) bool = 0 <= i && i < len(pod.Status.Conditions) && pod.Status.Conditions[i].Type == v1.PodScheduled && (forall j int :: 0 <= j && j < i ==> pod.Status.Conditions[j].Type != v1.PodScheduled)
 // the pod carries no PodScheduled condition at all
 //@ define noScheduledCond(pod *v1.Pod) bool = forall i int :: 0 <= i && i < len(pod.Status.Conditions) ==> pod.Status.Conditions[i].Type != v1.PodScheduled
+// closed forms (helper ctrl2; used as summand guards of the C20 folds):
+// the first PodScheduled condition of the pod exists and is True
+//@ define schedTrue(pod *v1.Pod) bool = exists i int :: firstScheduledAt(pod, i) && pod.Status.Conditions[i].Status == v1.ConditionTrue
+// requested counts for Pending/Running pods; allocated counts for Running pods and for Pending pods that are already scheduled
+//@ define podIsActive(pod *v1.Pod) bool = pod.Status.Phase == v1.PodPending || pod.Status.Phase == v1.PodRunning
+//@ define podIsAllocated(pod *v1.Pod) bool = pod.Status.Phase == v1.PodRunning || (pod.Status.Phase == v1.PodPending && schedTrue(pod))
 // b is the truth value of "the first PodScheduled condition of the pod exists and is True"
 // (two clauses instead of an existential: every pod has either a first PodScheduled condition or none)
 //@ define scheduledIs(pod *v1.Pod, b bool) bool = (noScheduledCond(pod) ==> !b) && (forall i int :: firstScheduledAt(pod, i) ==> b == (pod.Status.Conditions[i].Status == v1.ConditionTrue))
@@ -32,6 +38,7 @@ package metadata
 //@     decreases len(pod.Status.Conditions) - rangeindex
 //@   ensures [none] noScheduledCond(pod) ==> !result
 //@   ensures [first] forall i int :: firstScheduledAt(pod, i) ==> result == (pod.Status.Conditions[i].Status == v1.ConditionTrue)
+//@   ensures [closed] result == schedTrue(pod)
 //@ end
 
 //@ func isAllocatedPod
@@ -42,6 +49,7 @@ package metadata
 //@   ensures [otherPhases] pod.Status.Phase != v1.PodRunning && pod.Status.Phase != v1.PodPending ==> !result
 //@   ensures [pendingUnscheduled] pod.Status.Phase == v1.PodPending && noScheduledCond(pod) ==> !result
 //@   ensures [pendingScheduled] pod.Status.Phase == v1.PodPending ==> (forall i int :: firstScheduledAt(pod, i) ==> result == (pod.Status.Conditions[i].Status == v1.ConditionTrue))
+//@   ensures [closed] result == podIsAllocated(pod)
 //@ end
 
 // Property C20: "requested, allocated ... equal the sums over its pods": folding one pod into the
@@ -74,8 +82,45 @@ package metadata
 //@ func GetPodMetadata
 //@   props C20
 //@   requires pod != nil
-//@   modifies *
 //@   ensures [inactiveCountsNothing] old(pod.Status.Phase != v1.PodPending && pod.Status.Phase != v1.PodRunning) ==> result1 == nil && result0 != nil && (forall k v1.ResourceName :: !(k in result0.RequestedResources) && !(k in result0.AllocatedResources))
 //@   ensures [inactiveNoSideEffect] old(pod.Status.Phase != v1.PodPending && pod.Status.Phase != v1.PodRunning) ==> pod.Status.Phase == old(pod.Status.Phase)
 //@   ensures [errorMeansNoMetadata] result1 != nil ==> result0 == nil
+//@   ensures [successHasLists] result1 == nil ==> result0 != nil && result0.RequestedResources != nil && result0.AllocatedResources != nil
+//@   # closed form of "by phase" for the allocated list (the requested list: [inactiveCountsNothing])
+//@   ensures [unallocatedCountsNothing] result1 == nil && !podIsAllocated(pod) ==> (forall k v1.ResourceName :: !(k in result0.AllocatedResources))
+//@   # ASSUMED (naming): see the note at podReq / podAlloc below
+//@   trust [requestedOf] result1 == nil ==> (forall r v1.ResourceName :: result0.RequestedResources[r] == podReq(string(pod.UID), pod.ResourceVersion, r))
+//@   trust [allocatedOf] result1 == nil ==> (forall r v1.ResourceName :: result0.AllocatedResources[r] == podAlloc(string(pod.UID), pod.ResourceVersion, r))
+//@   note [requestedOf] [allocatedOf] are ASSUMED: they NAME what GetPodMetadata computes for a pod (podReq / podAlloc, functions of the pod's API identity metadata.uid + metadata.resourceVersion and the resource name). Within one fold over a pod list whose UIDs are pairwise distinct (what the API server returns) this only names the value computed for each listed pod; across two reconciles it is the determinism assumption "same object version, unchanged cluster (nodes, resource claims) ==> same metadata". The callee reads the cluster through the client; its result is not a function of the in-memory pod alone.
+//@ end
+
+// ---- helper "ctrl2": what ONE pod contributes to the group totals, as named values (summands of the C20 folds) ----
+// podReq / podAlloc: requested / allocated list GetPodMetadata computes for the pod object version (uid, resourceVersion).
+// Keyed by API identity and not by the *v1.Pod pointer: the caller hands GetPodMetadata the address of a COPY of the
+// list element (range variable, then by-value parameter), and the spec language cannot take the address of s[i].
+//@ declare podReq(uid string, rv string, r v1.ResourceName) real
+//@ declare podAlloc(uid string, rv string, r v1.ResourceName) real
+// the closed forms "by phase" used as summands (quantifier-free: a summand must not contain a binder)
+//@ define reqOfPod(p *v1.Pod, r v1.ResourceName) real = ite(podIsActive(p), podReq(string(p.UID), p.ResourceVersion, r), 0.0)
+//@ define allocOfPod(p *v1.Pod, r v1.ResourceName) real = ite(podIsActive(p), podAlloc(string(p.UID), p.ResourceVersion, r), 0.0)
+
+// The two per-pod computations: container requests folded with SumResources, plus GPU-sharing annotations
+// (resource.ParseQuantity / MustParse / Quantity.Mul), the node's GPU-memory label (client.Get) and the pod's DRA
+// claims (client.Get/List): outside the subset. ASSUMED: they do not write to objects that existed before the call.
+//@ func calculateRequestedResources
+//@   props C20
+//@   trusted
+//@   note body outside the subset (API reads through client.Client, resource.ParseQuantity/Quantity.Mul, DRA claim walk); assumed frame: writes nothing that existed before; the value is named by GetPodMetadata [requestedOf]
+//@   requires pod != nil
+//@   ensures [errorMeansNoList] result1 != nil ==> result0 == nil
+//@   ensures [successHasList] result1 == nil ==> result0 != nil
+//@ end
+
+//@ func calculatedAllocatedResources
+//@   props C20
+//@   trusted
+//@   note body outside the subset (API reads through client.Client: node GPU memory label, DRA claims; resource.MustParse); assumed frame: writes nothing that existed before; the value is named by GetPodMetadata [allocatedOf]
+//@   requires pod != nil
+//@   ensures [errorMeansNoList] result1 != nil ==> result0 == nil
+//@   ensures [successHasList] result1 == nil ==> result0 != nil
 //@ end
